@@ -6,10 +6,15 @@ cd /repo
 if ! git diff --quiet; then echo "/repo has uncommitted changes"; exit 2; fi
 git apply "$PATCH" || { echo "patch does not apply"; exit 2; }
 cd /verif
+# evidence and replays of a mutated tree never land in /verif/evidence
+export ORX_OUT=${ORX_MUT_OUT:-/tmp/orx_mut_out}
+mkdir -p "$ORX_OUT"
 for p in "$@"; do
   out=$(./check "$p" --tier quick 2>&1)
   rc=$?
   echo "== $p rc=$rc :: $(echo "$out" | grep -E '^VIOLATION' | head -1) :: $(echo "$out" | tail -1)"
+  rp=$(echo "$out" | grep -E '^VIOLATION' | head -1 | sed -e 's/.*replay=//' -e 's/ .*//')
+  [ -n "$rp" ] && [ -f "$rp" ] && echo "   why: $(sed -n 2p "$rp" | cut -c1-220)"
 done
 git -C /repo checkout -- .
 git -C /repo status --short | head -3
